@@ -644,7 +644,7 @@ func c08CanonSub() *engine.Sub {
 	return &engine.Sub{
 		Name:   "canonical-bytes",
 		Repeat: true,
-		Rule:   "sealed base tokens are parsed with the harness' own CBOR item parser; every single (quick) / every pair (thorough) of data-preserving re-encoding sites is applied: non-minimal head widths, indefinite lengths, chunked strings, map key permutations, narrower floats, undefined for null, byte string <-> text string with the same octets (incl. the signature item), spurious tags, extra outer element, trailing bytes; integers as the other integer type with the 8-byte argument that wraps around to the same value; plus key-less signature re-encodings (the complete varsig - header then signature -, header after the signature, length-prefixed, signature followed by the signed bytes; ECDSA s -> n-s, DER variants, RSA leading zero added, and - on RSA tokens whose nonce was searched until the signature starts with a zero octet - stripped; Ed25519 s+L). A decoder must reject each re-encoding (two accepted byte strings with the same signed content would have different CIDs); non-trivial = re-encoded bytes differ from the original",
+		Rule:   "sealed base tokens are parsed with the harness' own CBOR item parser; every single (quick) / every pair (thorough) of data-preserving re-encoding sites is applied: non-minimal head widths, indefinite lengths, chunked strings, map key permutations, narrower floats, undefined for null, byte string <-> text string with the same octets (incl. the signature item), spurious tags, extra outer element, trailing bytes; integers as the other integer type with the 8-byte argument that wraps around to the same value; plus key-less signature re-encodings (the complete varsig - header then signature -, header after the signature, length-prefixed, signature followed by the signed bytes; ECDSA s -> n-s, DER variants, RSA leading zero added, and - on RSA tokens whose nonce was searched until the signature starts with a zero octet - stripped; Ed25519 s+L). A decoder must reject each re-encoding - also from an io.ReadSeeker that serves the re-encoding until the first Seek and the canonical bytes afterwards (a source read twice must not be judged on one reading and reported on the other) - (two accepted byte strings with the same signed content would have different CIDs); non-trivial = re-encoded bytes differ from the original",
 		Bound: func(t string) string {
 			if t == "thorough" {
 				return "3 base tokens x 5 algorithms; all single sites and all pairs of sites of distinct kinds on the Ed25519 tokens"
@@ -749,6 +749,7 @@ func c08CanonSub() *engine.Sub {
 				panic(fmt.Sprintf("harness: base token does not unseal: %v", err))
 			}
 			origView := ViewOf(origTok)
+			acceptedPlain := false
 			for name, dec := range c08Decoders(kind) {
 				ctx.Eval(1)
 				ctx.Trans(1)
@@ -757,6 +758,7 @@ func c08CanonSub() *engine.Sub {
 					ctx.Outcome("rejected")
 					continue
 				}
+				acceptedPlain = true
 				if diff := DiffViews(origView, ViewOf(got)); len(diff) > 0 {
 					ctx.Outcome("accepted-different-content")
 					ctx.Failf(cs, "content-changed/"+cls, "%s accepts a re-encoding (%v %s) and returns different content (%v)", name, cs.Reencs, cs.SigVar, diff)
@@ -765,8 +767,82 @@ func c08CanonSub() *engine.Sub {
 				ctx.Outcome("accepted-same-content")
 				ctx.Failf(cs, cls, "%s accepts a second byte string for the same signed content (%v %s): CID %s instead of %s", name, cs.Reencs, cs.SigVar, refCID(mutated), refCID(orig))
 			}
+			// the same bytes from a source that can be read again - and answers differently the second time: an io.ReadSeeker
+			// that serves the re-encoding until the first Seek and the canonical bytes afterwards (a file replaced between two
+			// passes). What is decoded, what is hashed and what is checked for canonicity must be the same bytes: the call fails,
+			// or reports the canonical token under the canonical CID (then it read the second face only).
+			for name, dec := range c08SeekerDecoders(kind) {
+				if acceptedPlain {
+					break // (accepted from a plain source already, and charged above: nothing the second face could add)
+				}
+				ctx.Eval(1)
+				ctx.Trans(1)
+				c, err := dec(&twoFacedSeeker{first: mutated, second: orig})
+				if err != nil {
+					ctx.Outcome("rejected")
+					continue
+				}
+				if !c.Equals(refCID(orig)) {
+					ctx.Failf(cs, cls+"/source-that-changes-on-seek", "%s accepts a source that serves the re-encoding (%v %s) first and the canonical bytes after a Seek, and reports CID %s (canonical: %s)", name, cs.Reencs, cs.SigVar, c, refCID(orig))
+				}
+			}
 		},
 	}
+}
+
+// twoFacedSeeker serves first until the first Seek, second afterwards.
+type twoFacedSeeker struct {
+	first, second []byte
+	pos           int64
+	sought        bool
+}
+
+func (r *twoFacedSeeker) cur() []byte {
+	if r.sought {
+		return r.second
+	}
+	return r.first
+}
+
+func (r *twoFacedSeeker) Read(p []byte) (int, error) {
+	b := r.cur()
+	if r.pos >= int64(len(b)) {
+		return 0, io.EOF
+	}
+	n := copy(p, b[r.pos:])
+	r.pos += int64(n)
+	return n, nil
+}
+
+func (r *twoFacedSeeker) Seek(off int64, whence int) (int64, error) {
+	if !(off == 0 && whence == io.SeekCurrent) {
+		r.sought = true // asking where one stands changes nothing; going somewhere does
+	}
+	switch whence {
+	case io.SeekStart:
+		r.pos = off
+	case io.SeekCurrent:
+		r.pos += off
+	case io.SeekEnd:
+		r.pos = int64(len(r.cur())) + off
+	}
+	if r.pos < 0 {
+		r.pos = 0
+		return 0, fmt.Errorf("negative position")
+	}
+	return r.pos, nil
+}
+
+func c08SeekerDecoders(kind string) map[string]func(io.Reader) (cid.Cid, error) {
+	m := map[string]func(io.Reader) (cid.Cid, error){
+		"token.FromSealedReader(seeker)": func(r io.Reader) (cid.Cid, error) { _, c, err := token.FromSealedReader(r); return c, err },
+	}
+	if kind == "inv" {
+		m["invocation.FromSealedReader(seeker)"] = func(r io.Reader) (cid.Cid, error) { _, c, err := invocation.FromSealedReader(r); return c, err }
+	} else {
+		m["delegation.FromSealedReader(seeker)"] = func(r io.Reader) (cid.Cid, error) { _, c, err := delegation.FromSealedReader(r); return c, err }
+	}
+	return m
 }
 
 func pathPrefix(a, b []int) bool {
